@@ -117,16 +117,23 @@ CLAIMED["C09"] = {
 CLAIMED["C07"] = {
     "design_ref": "DESIGN.md §4 C07, notes/C07.md",
     "text": "Coq theorems over all interleavings of the memory/disk phases of concurrent circuit-map calls: an incoming "
-            "HTLC is returned in Adds at most once between deletes and only after its durable write, at most one of all "
-            "Close/Fail calls per circuit succeeds per run, a failed Commit/Open transaction leaves memory and disk "
-            "unchanged, restart restores exactly the durable circuits (purge rule for closed channels, restored circuits "
-            "are never re-forwarded: Drop/Fail). Partial: surviving-keystone (trim contiguity) clause of restart and "
-            "DeleteCircuits rollback are decided by correspondence + predicate only. Tied to the real circuitMap over a "
-            "real bbolt DB with a gated kvdb backend that fixes commit/abort and the exact interleaving of 1-3 "
-            "goroutines; return values and 24-key lookups compared after every step.",
+            "HTLC is decided Add at most once between deletes and returned only after its durable write; at most one "
+            "Close/Fail per circuit succeeds per run; a failed Commit/Open/Delete transaction leaves memory and disk "
+            "unchanged (Delete under wf_out) and TrimOpenCircuits provably has no rollback; restart restores exactly the "
+            "durable circuits (closed-channel purge rule), keeps open exactly the surviving keystones below "
+            "NextLocalHtlcIndex, rolls the others back in memory and on disk, and never re-forwards a restored circuit "
+            "(Drop/Fail) - under the link's contiguity discipline, which is proved necessary by a refuted witness "
+            "replayed on the real code. A discipline theorem shows that sequential link/switch-disciplined histories "
+            "keep the map coherent (wf_out). Tied to the real circuitMap over a real bbolt DB with a gated kvdb backend "
+            "fixing commit/abort and the exact interleaving of 1-3 goroutines; return values and 24-key lookups compared "
+            "after every step; every theorem hypothesis is evaluated on the implementation's state in every run.",
     "note": "Trusted: Coq kernel, harness (gated kvdb backend), python predicate, bbolt transaction atomicity. "
-            "Switch-level settle/fail plumbing is C08's. API-level hazards outside the link protocol are listed in notes/C07.md.",
-    "technique": "Coq proof (invariants over phase-interleaved runs) + deterministic-schedule differential correspondence",
+            "Hypotheses carried: contiguous_on_disk, single_keystone, wf_out, seq_disciplined (sequential histories); "
+            "call-site argument in notes/C07.md. Five API-level hazards are modelled, witnessed in Coq and replayed on "
+            "the real code; one (failed Trim transaction, link.go Start) is reachable only under a surviving kvdb write "
+            "error, low impact (robustness note, not a C07 violation). Switch-level settle/fail plumbing is C08's.",
+    "technique": "Coq proof (invariants over phase-interleaved runs, exact restart refinement, discipline invariant) + "
+                 "deterministic-schedule differential correspondence + refuted-witness replay",
 }
 CLAIMED["C14"] = {
     "design_ref": "DESIGN.md §4 C14, notes/C14.md",
@@ -146,19 +153,30 @@ CLAIMED["C10"] = {
     "design_ref": "DESIGN.md §4 C10, notes/C10.md",
     "text": "Coq theorems: BigSize round-trip and accept-iff-minimal; tlv DecodeP2P accepts a byte string exactly when "
             "it is the canonical concatenation of strictly-increasing records (lengths <= 65535, known records valid) "
-            "and then decode-encode is the identity (with the exact BigSize-length exception characterised); decoder "
-            "total; generic layout laws (round-trip, canonical fixpoint that never grows, byte-exact losslessness for "
-            "exact layouts, 65535-byte bound, framing) instantiated for lnwire layouts. Tied per run by byte-exact "
-            "differential runs of tlv.ReadVarInt/WriteVarInt/Stream.Decode/DecodeP2P/Encode and "
-            "lnwire.ReadMessage/WriteMessage against the model, plus implementation-only predicates (independent "
-            "BOLT-1 parser, fixpoint, size, no panic, bounded time) over all 45 registered message types and 26 onion "
-            "failure codes. Three known findings C10-F1..F3 (Coq _refuted witnesses, replayed on the real code).",
-    "note": "partial: TLV-carrying message types without a Coq layout, allocation/panic/time and zlib are exercised by "
-            "the harness only. lnwire compiles against tlv v1.4.0 from the module cache (no replace), so tlv-tree "
-            "changes are seen only by the tlv-module harness. Trusted: Coq kernel, harnesses, python BOLT-1 parser, "
-            "layouts, on_curve oracle.",
-    "technique": "Coq proof (induction over streams/layouts, accept-iff-canonical equivalence) + differential "
-                 "correspondence + spec predicate on implementation traces",
+            "and then decode-encode is the identity (exact BigSize-length exception characterised); decoder total; "
+            "generic layout laws (round-trip, canonical fixpoint, byte-exact losslessness for exact layouts, 65535-byte "
+            "bound, framing) instantiated for the layouts GENERATED on every run from lnwire's Encode/Decode methods by "
+            "the Go->Coq translator (27 of 42 message types, 17 of 26 onion failure codes; Encode-layout = Decode-layout "
+            "asserted per message). Messages of the shape fixed fields ++ TLV extension (14 types incl. OpenChannel, "
+            "AcceptChannel, Funding*, ChannelReady, Shutdown, ClosingSigned, UpdateAddHTLC, CommitSig, ChannelUpdate1 with "
+            "its flag-conditional field): every complete valid value round-trips; whatever Decode accepts re-encodes to a "
+            "canonical fixpoint after one re-encode; exactly the unknown records are lost and only by the messages whose "
+            "Encode re-packs (finding C10-F1, modelled); onion failure packet framing round-trips to exactly 260 bytes. "
+            "Tied per run by byte-exact differential runs of tlv.ReadVarInt/WriteVarInt/Stream.Decode/DecodeP2P/Encode "
+            "and, for 28 message types and 17 failure codes, verdict, field values, ExtraData and re-encoded bytes of the "
+            "real ReadMessage/WriteMessage/DecodeFailure/EncodeFailure vs the model incl. crafted TLV extensions; plus "
+            "implementation-only predicates (independent BOLT-1 parser, fixpoint, size, no panic, bounded time) over all "
+            "45 registered message types and 26 failure codes. Known findings C10-F1..F3 (Coq witnesses replayed on the code).",
+    "note": "partial: 15 message types (Closing*, Dyn*, RevokeAndAck, ChannelReestablish, NodeAnnouncement1, "
+            "QueryShortChanIDs, ReplyChannelRange, pure-TLV v2 gossip, OnionMessage) and 9 failure codes are outside the "
+            "translator's fragment: harness and predicates only; allocation/panic/time and zlib are exercised only. The "
+            "'never grows' clause is refuted for always-produced records (OpenChannel/AcceptChannel gain 2 bytes). A "
+            "mutation that pushes a message out of the translator's fragment is reported as proof_broken without a "
+            "failing input. lnwire compiles against tlv v1.4.0 from the module cache (no replace), so tlv-tree changes "
+            "are seen only by the tlv-module harness. Trusted: Coq kernel, translator codec tables, python secp256k1 "
+            "oracle and BOLT-1 parser, harnesses.",
+    "technique": "Coq proof (induction over streams/layouts, accept-iff-canonical equivalence) + T1 Go->Coq layout "
+                 "translator with Encode/Decode symmetry check + differential correspondence + spec predicate on traces",
 }
 
 CLAIMED["C18"] = {
